@@ -277,9 +277,20 @@ class Ctx:
 
 
 def ast_fingerprint(path):
-    import ast
+    """comment- and layout-insensitive fingerprint of a source file: hash of its token stream
+    (stable across Python versions, unlike ast.dump)"""
+    import tokenize
     try:
-        return hashlib.sha256(ast.dump(ast.parse(open(path).read())).encode()).hexdigest()[:16]
+        h = hashlib.sha256()
+        with open(path, "rb") as f:
+            for tok in tokenize.tokenize(f.readline):
+                if tok.type in (tokenize.COMMENT, tokenize.NL, tokenize.NEWLINE, tokenize.ENCODING, tokenize.ENDMARKER):
+                    continue
+                if tok.type in (tokenize.INDENT, tokenize.DEDENT):
+                    h.update(b"\x00%d" % tok.type)
+                else:
+                    h.update(b"\x01" + tok.string.encode("utf-8", "replace"))
+        return h.hexdigest()[:16]
     except Exception as ex:
         return "unparsable:%s" % type(ex).__name__
 
